@@ -41,6 +41,7 @@ def term_source(pid: str, tier: str):
     out += [("VANISH", t) for t in F.vanish_terms(tier)]
     out += [("PLAYER", t) for t in F.param_layer_terms(tier)]
     out += [("TWINS", t) for t in F.twins_terms(tier)]
+    out += [("GROUPS", t) for t in F.groups_terms(tier)]
     if pid in ("C01", "C02", "C08", "C17"):
         out += [("ARITH", t) for t in F.arith_terms(tier)]
     seen = set()
